@@ -117,3 +117,31 @@ Theorem C13_gen_pgd_dispatch :
   forall eq ineq, gen_pgd_choice eq ineq = (if eq then (if ineq then PPhysical else PEq) else (if ineq then PIneq else PSelf)).
 Proof. split; [reflexivity|]. intros [|] [|]; reflexivity. Qed.
 Print Assumptions C13_gen_pgd_dispatch.
+
+(* ================= G4: call skeletons ================= *)
+Fixpoint idx (a : string) (l : list string) : option nat :=
+  match l with [] => None | x :: t => if String.eqb a x then Some 0%nat else option_map S (idx a t) end.
+Definition before (a b : string) (l : list string) : bool :=
+  match idx a l, idx b l with Some i, Some j => Nat.ltb i j | _, _ => false end.
+
+(* est_step_*p of the model: for EVERY data set (inside the loop, nothing hoisted out of it) the loss is configured, the
+   algorithm is configured (option, projection, loss), and only then the optimiser runs *)
+Theorem C13_gen_estimation_loop :
+  gen_est_calls_outside_loop = [] /\
+  before "loss.set_from_standard_qtomography_option_data" "algo.set_from_loss" gen_est_loop_calls = true /\
+  before "loss.set_from_standard_qtomography_option_data" "algo.optimize" gen_est_loop_calls = true /\
+  before "algo.set_from_option" "algo.optimize" gen_est_loop_calls = true /\
+  before "algo.set_constraint_from_standard_qt_and_option" "algo.optimize" gen_est_loop_calls = true /\
+  before "algo.set_from_loss" "algo.optimize" gen_est_loop_calls = true.
+Proof. repeat split; reflexivity. Qed.
+Print Assumptions C13_gen_estimation_loop.
+
+(* the Configure step of the loss machines: option, data, probability functions, and - unconditionally, after them - the
+   weights of the mode of THIS call *)
+Theorem C13_gen_loss_configure_sequence :
+  before "self.set_from_option" "self._set_weights_by_mode" gen_loss_configure_calls = true /\
+  before "self.set_prob_dists_q" "self._set_weights_by_mode" gen_loss_configure_calls = true /\
+  before "self.set_func_prob_dists_from_standard_qt" "self._set_weights_by_mode" gen_loss_configure_calls = true /\
+  before "self.set_func_gradient_prob_dists_from_standard_qt?" "self._set_weights_by_mode" gen_loss_configure_calls = true.
+Proof. repeat split; reflexivity. Qed.
+Print Assumptions C13_gen_loss_configure_sequence.
